@@ -264,7 +264,8 @@ def templates(rng, n, span):
         (["change", "EnforceChanges"], [rng.choice(["40%", "100%"])], {}),
         (["gc", "EnforceGCContent"], [], rng.choice([{"mini": 0.3, "maxi": 0.7}, {"mini": 0.25, "maxi": 0.75, "window": 6},
                                                      {"target": 0.5, "window": 5}])),
-        (["gc", "EnforceGCContent"], [rng.choice(["40-60%", "30-70%/6bp", "50%/5bp"])], {}),
+        (["gc", "EnforceGCContent"], [rng.choice(["40-60%", "30-70%/6bp", "50%/5bp", "%d-%d%%" % (rng.randint(1, 49), rng.randint(50, 99)),
+                                                  "%d-%d%%/%dbp" % (rng.randint(1, 49), rng.randint(50, 99), rng.choice([5, 6, 8]))])], {}),
         (["all_unique_kmers", "UniquifyAllKmers"], [rng.choice([4, 6])], rng.choice([{}, {"include_reverse_complement": 0}])),
         (["all_unique_kmers"], [], {"k": 5}),
         (["AvoidHairpins"], [], rng.choice([{}, {"stem_size": 5, "hairpin_window": 20}])),
